@@ -862,7 +862,9 @@ func (n *node) exec1(line string) string {
 		}
 		gc := core.GetGroupChain()
 		anc := gc.GetGroupByHeight(h)
-		if gc.Count() >= 1<<32 || anc == nil || h >= gc.Count() {
+		if gc.Count() >= 1<<32 || anc == nil || h >= gc.Count() || anc.GroupHeight != h {
+			// (a group stored under slot h with another GroupHeight exists only on crash-desynchronised
+			// stores; the fork would then be keyed by that other height: not exercised, both sides agree)
 			return "unmodelled"
 		}
 		n.forkUsed = true
@@ -1810,6 +1812,69 @@ func (g *gen) sqlFaults() int {
 	return cnt
 }
 
+// faultThenContinue: a refused write FOLLOWED by further successful mutators, every one of them
+// probed in full: after a start-up (so that nothing the chain created during its first save predates
+// the fault wrapper) an add whose batch write is refused, then removals / a fork switch that lower the
+// chain and adds at the lower heights, then a restart. The refused add must leave no trace at all.
+func (g *gen) faultThenContinue() int {
+	if !faultHook {
+		return 0
+	}
+	cnt := 0
+	conts := [][]string{
+		{"rmlast", "add c1c2c3 %L 9001 7 e1", "add d4 c1c2c3 9001 8"},
+		{"rmto 0", "add c1c2c3 9001 9001 7", "add d4 c1c2c3 9001 8 e2e2", "add e5e6 d4 9001 9"},
+		{"add c1c2c3 %L 9001 7", "rmto 1", "add d4 %L 9001 8", "rmlast", "add e5e6 %L 9001 9"},
+		{"fault 1 add c1c2c3 %L 9001 7", "rmlast", "rmlast", "add d4 %L 9001 8", "add e5e6 d4 9001 9"},
+	}
+	if forkHook {
+		conts = append(conts, []string{"switch 0 c1c2c3,9001,9001,7 d4,c1c2c3,9001,8", "rmlast", "add e5e6 %L 9001 9"})
+	}
+	for n := 1; n <= 3; n++ {
+		for ci, cont := range conts {
+			for j := 0; j < 2; j++ {
+				if j == 0 && ci > 0 {
+					continue // a failed (and ignored) JSON Put taints the history: one continuation is enough
+				}
+				g.pool = idPool
+				g.boot(1)
+				g.emit("restart")
+				pre := "9001"
+				for i := 0; i < n; i++ {
+					id := []string{"a1", "a2", "f7"}[i]
+					g.emit(fmt.Sprintf("add %s %s 9001 %d e1", id, pre, i+1))
+					pre = id
+				}
+				g.resync()
+				g.emit(fmt.Sprintf("fault %d add b1b2 %s 9001 5", j, g.last()))
+				g.resync()
+				if g.alive {
+					g.probes()
+				}
+				for _, op := range cont {
+					if !g.alive || len(g.listed) == 0 {
+						break
+					}
+					g.emit(strings.ReplaceAll(op, "%L", g.last()))
+					g.resync()
+					if g.alive {
+						g.probes()
+					}
+				}
+				if g.alive {
+					g.emit("restart")
+					g.resync()
+					if g.alive {
+						g.probes()
+					}
+				}
+				cnt++
+			}
+		}
+	}
+	return cnt
+}
+
 // concStress: many rounds of two concurrent AddGroup calls on one chain, shrinking it in between.
 func (g *gen) concStress(rounds int) {
 	g.pool = idPool
@@ -2175,9 +2240,13 @@ func main() {
 			evals++
 			key, desc = n.oracle()
 		}
-		if prefix != "" {
-			faulted = true // whatever shows later in this history derives from the failed write
+		if prefix != "" && faultFired && !strings.HasPrefix(res, "write-error") {
+			// a write failed and the operation did NOT report it: the store misses a write the memory
+			// believes in; whatever shows later in this history derives from that
+			faulted = true
 		}
+		// (a fault that did not fire, or one the operation surfaced as an error, leaves a clean chain:
+		// the history goes on being checked — further adds, removals and switches after a refused write)
 		if key == "" {
 			return res
 		}
@@ -2242,6 +2311,7 @@ func main() {
 		nEx = g.exhaustive(depth, true) // shortest histories first: they make the replay of a finding
 		g.bootCrashes()
 		g.writeFaults()
+		g.faultThenContinue()
 		g.sqlFaults()
 		g.forkSwitches()
 		for i := 0; i < nSeq; i++ {
@@ -2264,6 +2334,7 @@ func main() {
 		if part == 0 {
 			g.bootCrashes()
 			g.writeFaults()
+			g.faultThenContinue()
 			g.sqlFaults()
 			g.forkSwitches()
 		}
